@@ -393,6 +393,24 @@ def aff_compare(interp, name, a, b, text):
     dc, d0 = _lin(x.coeffs, 1, y.coeffs, -1), x.const - y.const
     if not dc:
         return Const(CMP_PY[name](d0, 0))
+    if len(dc) == 1 and list(dc)[0].startswith('trunc:') and d0.denominator == 1 and abs(list(dc.values())[0]) == 1:
+        # trunc(v) <op> c  with integer c, restated on the real variable v:  trunc(v) < c  <=>  v < c (c > 0) | v <= c - 1 (c <= 0)
+        var = list(dc)[0][6:]
+        sgn = list(dc.values())[0]
+        cst = -d0 * sgn                     # trunc(v) <op'> cst
+        op = name if sgn == 1 else CMP_REFLECT[name]
+        if op in ('le',):
+            op, cst = 'lt', cst + 1
+        if op in ('gt',):
+            op, cst = 'ge', cst + 1
+        if op == 'lt':
+            real_op, bound = ('lt', cst) if cst > 0 else ('le', cst - 1)
+            sub = AffCmp(real_op, {var: 1}, -bound)
+            return Const(interp.decide('%r' % (sub,), [True, False], sub))
+        if op == 'ge':
+            real_op, bound = ('ge', cst) if cst > 0 else ('gt', cst - 1)
+            sub = AffCmp(real_op, {var: 1}, -bound)
+            return Const(interp.decide('%r' % (sub,), [True, False], sub))
     sub = AffCmp(name, dc, d0)
     return Const(interp.decide('%r' % (sub,), [True, False], sub))
 
@@ -745,6 +763,10 @@ def call_type(interp, name, args, kwargs):
     if name in ('int', 'float') and args and isinstance(args[0], Aff) and args[0].kind in ('int', 'num'):
         a = args[0]
         if name == 'int' and a.kind != 'int':
+            if len(a.coeffs) == 1 and list(a.coeffs.values())[0] == 1 and a.const == 0:
+                # int(x) of a real variable x: a new integer variable trunc:x; comparisons with integer constants are
+                # translated back to x (aff_compare), bounds are derived from those of x (abshelp.int_min)
+                return Aff(1, 0, 'int', 'trunc:' + list(a.coeffs)[0])
             raise Unmodelled('int() of a non-integral affine form')
         return Aff(dict(a.coeffs), a.const, 'int' if name == 'int' else 'num')
     if name in ('int', 'float', 'complex'):
@@ -821,6 +843,7 @@ def call_type(interp, name, args, kwargs):
     if name == 'datetime.datetime':
         if all(a.tag in NUMERIC or a.tag is None for a in args):
             # constructor validates ranges
+            interp.state.events.append(('datetime-ctor', list(args), list(interp.state.notes)))
             if interp.decide('datetime(%s) is a valid date' % ', '.join(repr(a) for a in args), [True, False]):
                 return Atom('datetime', args, 'datetime')
             raise Raised(Exc('ValueError', 'date out of range'))
@@ -965,6 +988,18 @@ def call_builtin(interp, name, args, kwargs):
                 return args[1]
             raise Raised(Exc('StopIteration'))
         raise Unmodelled('next() on %r' % (g,))
+    if name == 'itertools.groupby' and len(args) == 1 and not kwargs:
+        # runs of consecutive equal items: (key, group) pairs; whether neighbours are equal is a decision per pair
+        items, tail = iter_items_tail(interp, args[0])
+        if any(isinstance(i, Splice) for i in items):
+            raise Unmodelled('groupby over a run of unknown length')
+        groups = []
+        for it_ in items:
+            if groups and interp.truth(rich_compare(interp, 'eq', groups[-1][0], it_, 'groupby'), 'groupby: %r == %r' % (groups[-1][0], it_)):
+                groups[-1][1].append(it_)
+            else:
+                groups.append((it_, [it_]))
+        return GenV([ListV([kk, GenV(list(gg), None)], 'tuple') for kk, gg in groups], tail)
     if name in ('itertools.chain',):
         out = []
         tail = None
@@ -1069,6 +1104,23 @@ def call_builtin(interp, name, args, kwargs):
         return Atom(name, [i if not isinstance(i, Splice) else Sym('list', i.name) for i in items] + list(args[1:]), 'float')
     if name.startswith('random.'):
         return Atom(name, args, 'float' if short == 'random' else 'int')
+    if name in ('calendar.isleap', 'calendar.monthrange'):
+        import calendar as _cal
+        y = args[0]
+
+        def leap():
+            if isinstance(y, Const) and isinstance(y.value, int):
+                return _cal.isleap(y.value)
+            return interp.decide('%r is a leap year' % (y,), [False, True], ('leap', repr(y)))
+        if short == 'isleap':
+            return Const(bool(leap()))
+        mo = args[1] if len(args) > 1 else None
+        if not (isinstance(mo, Const) and isinstance(mo.value, int)):
+            raise Unmodelled('calendar.monthrange with a symbolic month')
+        if not 1 <= mo.value <= 12:
+            raise Raised(Exc('calendar.IllegalMonthError', 'bad month number'))
+        length = (29 if leap() else 28) if mo.value == 2 else _cal.monthrange(2001, mo.value)[1]
+        return ListV([Atom('weekday-of-first', [y, mo], 'int'), Const(length)], 'tuple')
     if name in ('fnmatch.fnmatch', 'fnmatch.fnmatchcase'):
         for a in args[:2]:
             if a.tag is not None and a.tag != 'str':
@@ -1117,6 +1169,22 @@ def call_builtin(interp, name, args, kwargs):
                 elif isinstance(f, ListV) and all(isinstance(i, Const) for i in f.items):
                     fields = ','.join(str(i.value) for i in f.items)
             return Builtin('namedtuple:%s:%s' % ((args[0].value if isinstance(args[0], Const) else '?'), fields))
+        if short == 'ChainMap':
+            if args and isinstance(args[0], DictV):
+                if len(args) == 1:
+                    return args[0]          # same storage: a write through the view is a write to the mapping
+                merged = DictV([list(p_) for p_ in args[0].pairs], default=args[0].default)
+                for extra in args[1:]:
+                    if isinstance(extra, DictV):
+                        for kk, vv in extra.pairs:
+                            if merged.lookup(kk) is None:
+                                merged.store(kk, vv)
+                interp.imprecise('ChainMap over several mappings (writes not tracked)')
+                return merged
+            if not args:
+                return DictV([])
+            interp.imprecise('ChainMap over an unmodelled mapping')
+            return Top('ChainMap')
         if short == 'defaultdict':
             return DictV([], default='list' if (args and isinstance(args[0], TypeV) and args[0].name == 'list') else None)
     if name.startswith('namedtuple:'):
